@@ -27,10 +27,10 @@ func runC12(c *Ctx) {
 	L.Rule("seq-partition", "every sequence is either counted as removed or re-added (exactly one per iteration) and the returned number is that counter")
 	L.Rule("row-index-safe", "every index into a row buffer or into the candidate list is within bounds on every path")
 
-	fns := map[string]bool{"(*align).RemoveCharacterSites": true, "(*align).RemoveCharacterSeqs": true, "(*align).MaxCharStats": true}
+	fns := c.helperDeclsOf("align", [2]string{"*align", "RemoveCharacterSites"}, [2]string{"*align", "RemoveCharacterSeqs"}, [2]string{"*align", "MaxCharStats"})
 	n := c.checkAlphabetConsts("alphabet-wildcard", fns)
 	_ = n
-	L.Floor("alphabet-wildcard", 6, "2 constants in each of RemoveCharacterSites, RemoveCharacterSeqs, MaxCharStats")
+	L.Floor("alphabet-wildcard", 2, "both wildcard constants are used by the cleaning functions (or a helper they share)")
 
 	sites := c.fn("align", "*align", "RemoveCharacterSites")
 	major := c.fn("align", "*align", "RemoveMajorityCharacterSites")
